@@ -17,6 +17,9 @@
 #include <map>
 #include "vh.h"
 #include "reglayout.h"
+#include "recvisitor.h"
+#include <set>
+#include <sstream>
 #include "interpreter.h"
 #include "shared_memory.h"
 #include "ahbm.h"
@@ -78,10 +81,16 @@ struct Machine {
     }
 };
 
+// memory pattern: a deterministic function of the address, boundary values over-represented so that
+// memory operands hit 0, +-1, the sign boundary and the extremes often
 static u16 hash16(u32 a, u64 seed) {
     u64 z = (a + 1) * 0x9E3779B97F4A7C15ull ^ seed;
     z = (z ^ (z >> 29)) * 0xBF58476D1CE4E5B9ull;
-    return (u16)(z >> 24);
+    z ^= z >> 32;
+    static const u16 e[] = {0, 1, 2, 0x7FFF, 0x8000, 0x8001, 0xFFFF, 0xFFFE, 0x00FF, 0x0100, 0x4000, 0xC000};
+    unsigned sel = (unsigned)(z >> 40) % 20;
+    if (sel < 12) return e[sel];
+    return (u16)(z >> 8);
 }
 
 static void random_state(vh::Rng& rng, int* s) {
@@ -109,7 +118,17 @@ static void random_state(vh::Rng& rng, int* s) {
     else { s[I_lp] = 1; s[I_bcn] = 1 + rng.below(4); }
     if (rng.chance(3, 4)) s[I_rep] = 0;
     // accumulators: sometimes plain 16/32-bit sign-extended shapes (as the project's generator does)
+    static const u64 acc_edges[] = {
+        0, 1, 0xFFFFFFFFFFull /* -1 */, 0x7FFF, 0x8000, 0xFFFF, 0x10000, 0x7FFFFFFF, 0x80000000ull, 0x80000001ull,
+        0xFFFFFFFFull, 0x100000000ull, 0x7FFFFFFFFFull, 0x8000000000ull, 0x8000000001ull, 0xFF80000000ull /* -2^31 */,
+        0xFF7FFFFFFFull /* -2^31-1 */, 0xFFFFFF8000ull, 0x3FFFFFFF, 0x40000000, 0xFFC0000000ull, 0xFFBFFFFFFFull, 0x7FFFFFFFFEull,
+        0xFFFFFF0000ull, 0x00FFFF0000ull, 0x00007F8000ull};
     for (int base : {I_a0, I_a1, I_b0, I_b1, I_a1s, I_b1s}) {
+        if (rng.chance(2, 5)) {
+            u64 v = acc_edges[rng.below(sizeof(acc_edges) / sizeof(acc_edges[0]))];
+            s[base] = v & 0xFFFF; s[base + 1] = (v >> 16) & 0xFFFF; s[base + 2] = (v >> 32) & 0xFF; s[base + 3] = 0;
+            continue;
+        }
         unsigned c = rng.below(6);
         if (c == 0) { s[base + 1] = (s[base] & 0x8000) ? 0xFFFF : 0; s[base + 2] = (s[base] & 0x8000) ? 0xFF : 0; }
         else if (c == 1) { s[base + 2] = (s[base + 1] & 0x8000) ? 0xFF : 0; }
@@ -137,9 +156,31 @@ int main(int argc, char** argv) {
     vh::silence_stdout();
     vh::Rng rng(a.seed);
 
+    // --mode all:<lo>..<hi>:<k>  |  fam:<name,name,...>:<k>[:<part>/<parts>]  (handler names of decoder.h)
     char kind[16] = "all";
     unsigned lo = 0, hi = 65535, k = 1;
-    if (!a.mode.empty()) std::sscanf(a.mode.c_str(), "%15[^:]:%u..%u:%u", kind, &lo, &hi, &k);
+    std::vector<unsigned> words;
+    if (a.mode.rfind("fam:", 0) == 0) {
+        std::strcpy(kind, "fam");
+        std::string rest = a.mode.substr(4);
+        std::string names = rest.substr(0, rest.find(':'));
+        unsigned part = 0, parts = 1;
+        std::sscanf(rest.substr(rest.find(':') + 1).c_str(), "%u:%u/%u", &k, &part, &parts);
+        std::set<std::string> want;
+        std::stringstream ss(names);
+        for (std::string n; std::getline(ss, n, ',');) want.insert(n);
+        std::vector<unsigned> sel;
+        for (unsigned w = 0; w < 65536; ++w) {
+            vrec::Rec rec;
+            try { auto mm = Decode<vrec::Rec>((u16)w); mm.call(rec, (u16)w, 0); } catch (...) { continue; }
+            std::string nm = rec.key.substr(0, rec.key.find('/'));
+            if (want.count(nm) || want.count(rec.key)) sel.push_back(w);
+        }
+        for (size_t i = part; i < sel.size(); i += parts) words.push_back(sel[i]);
+    } else {
+        if (!a.mode.empty()) std::sscanf(a.mode.c_str(), "%15[^:]:%u..%u:%u", kind, &lo, &hi, &k);
+        for (unsigned w = lo; w <= hi; ++w) words.push_back(w);
+    }
     (void)generator_shape;
 
     Machine m;
@@ -152,7 +193,7 @@ int main(int argc, char** argv) {
     verif_mem_observer = &m.log;
 
     std::vector<int> pre(NREG), post(NREG);
-    for (unsigned w = lo; w <= hi; ++w) {
+    for (unsigned w : words) {
         for (unsigned rep = 0; rep < k; ++rep) {
             random_state(rng, pre.data());
             u16 x = rng.chance(1, 2) ? rng.edge16() : rng.u16();
